@@ -2,25 +2,32 @@
 # tools/seeded_all.sh [ids...] — for each seeded change: apply to /repo, run its own check, record the verdict in
 # seeded/<id>/meta.json ("result"), undo.  Refuses to run when /repo has local changes.
 cd "$(dirname "$0")/.." || exit 2
-ids=${*:-$(ls seeded | grep '^C[0-9][0-9]$')}
+ids=${*:-$(ls seeded | grep '^C[0-9][0-9]b*$')}
 git -C /repo diff --quiet || { echo "/repo has local changes; refusing"; exit 2; }
-for p in $ids; do
+for d in $ids; do
+  p=$(echo $d | cut -c1-3)
   rm -f replay/$p-*.json
-  git -C /repo apply "$PWD/seeded/$p/patch.diff" || { echo "$p: patch does not apply"; continue; }
+  git -C /repo apply "$PWD/seeded/$d/patch.diff" || { echo "$d: patch does not apply"; continue; }
   line=$(./check $p 2>/dev/null | tail -1)
   git -C /repo checkout -- .
-  python3 - "$p" "$line" <<'PY'
+  python3 - "$p" "$line" "$d" <<'PY'
 import json, glob, sys
-p, line = sys.argv[1], sys.argv[2]
-m = json.load(open('seeded/%s/meta.json' % p))
+p, line, d = sys.argv[1], sys.argv[2], sys.argv[3]
+import os
+mp = 'seeded/%s/meta.json' % d
+if not os.path.exists(mp):
+    a = json.load(open('seeded/%s/meta.agent.json' % d))
+    m = dict(property=p, breaks=p, summary=a.get('summary'), needs=a.get('needs'), origin='written by an independent sub-agent given only the property text, a placement hint and a scratch worktree of /repo (round 2)')
+else:
+    m = json.load(open(mp))
 what = ''
 for f in glob.glob('replay/%s-*.json' % p):
-    d = json.load(open(f))
-    what = '%s: %s' % (d.get('kind'), (d.get('what') or d.get('correspondence') or d.get('proof_obligation') or '')[:300])
-m['checks_run'] = 'tools/seeded_all.sh %s' % p
+    rj = json.load(open(f))
+    what = '%s: %s' % (rj.get('kind'), (rj.get('what') or rj.get('correspondence') or rj.get('proof_obligation') or '')[:300])
+m['checks_run'] = 'tools/seeded_all.sh %s' % d
 m['result'] = ('%s: %s' % (p, line.split(' replay=')[0])) + ((' — ' + what) if what else '')
-json.dump(m, open('seeded/%s/meta.json' % p, 'w'), indent=1, ensure_ascii=False)
-print(p, '|', m['result'][:230])
+json.dump(m, open(mp, 'w'), indent=1, ensure_ascii=False)
+print(d, '|', m['result'][:230])
 PY
   rm -f replay/$p-*.json
 done
